@@ -10,9 +10,13 @@ TRUSTED = ['bash standing in for ksh; GNU find/wc/tr/printf/echo as used by buil
            'tools/shims/date (fixed day); the histories run the real canvas and robsd-clean with the stand-ins '
            'tools/shims/{date,stat,find,chflags,logname,sendmail,robsd-clean} on PATH and the robsd-wait stub; '
            'the glob "PREFIX*" is modelled as a prefix test (step names over letters, digits, . _ - / only); '
-           'the oracle is applied to roots reachable by running and cleaning and to build directories written only by '
-           'attempts; other directory contents (files or symlinks named like invocations, nested matches, names with '
-           'newlines, deleted logs) are used for the model-vs-implementation comparison only; '
+           'numeric suffixes below 2^63 (the shell compares them with test -gt; the model uses unbounded numbers); '
+           'the build_id oracle (named after the date, carried by no entry) is applied to every generated root, the '
+           'log_id oracle to build directories written by attempts and by the environment changes C17_log_env_fresh allows; '
+           'a case in which a log is DELETED or a name like a suffixed log is put there by something else is outside the '
+           'quantifier (sequences of attempts; nothing in robsd deletes a log): it is recognised by a predicate on the '
+           'case, counted as outside, compared model-vs-implementation, and judged only for the verdicts that do not '
+           'depend on the name being fresh; '
            'end-to-end lanes: build_id+build_init on trees with file contents (whole-tree comparison), lock_acquire on '
            'lock files without NUL bytes, log_id interleaved with entries appearing/disappearing - the freshness oracle is '
            'applied to the interleavings whose additions/deletions the generator draws from names without ".log" '
@@ -20,7 +24,10 @@ TRUSTED = ['bash standing in for ksh; GNU find/wc/tr/printf/echo as used by buil
 
 RUNNER = os.path.join(common.VERIF, 'harness', 'iv_c17_run.sh')
 SIG_D10 = 'build-id-collision-after-gap'
-SIG_LOGDEL = 'log-id-reuses-name-after-log-deleted'
+SIG_D23 = 'build-id-reissues-cleaned-name'
+SIG_TEN = 'name-reissued-beyond-nine-a-day'
+OUT_LOGDEL = 'outside: a log (an entry named *.log*) is deleted - nothing in robsd deletes a log'
+OUT_LOGPUT = 'outside: an entry named like a suffixed log (STEM.log.k) is put there by something other than an attempt'
 DATE = '2024-03-05'
 OTHER_DAYS = ['2024-03-04', '2024-03-06', '2024-02-29', '2023-03-05']
 NAMES = ['a', 'b', 'a.log', 'a/b', 'a-b', 'bin/ksh', 'usr.bin/make', '-n', '-e', '-nE', '-x', '-', 'a_b', '0', '1.2',
@@ -86,7 +93,8 @@ def gen_bid(rng):
     spell = 'abs'
     if stream == 'wild':
         for _ in range(rng.randint(1, 4)):
-            w = rng.choice(['file', 'link', 'nested', 'nl', 'bare', 'x', 'hidden', 'nestedfile', 'deep'])
+            w = rng.choice(['file', 'link', 'nested', 'nl', 'bare', 'x', 'hidden', 'nestedfile', 'deep', 'zero', 'junk', 'dots',
+                            'big', 'empty'])
             k = rng.choice([1, 2, 3, len(ks) + 1, len(ks) + 2, m + 1])
             if w == 'file':
                 ents.append(['%s.%d' % (DATE, k), 'F'])
@@ -106,6 +114,16 @@ def gen_bid(rng):
                 ents.append([DATE + 'x', 'D'])
             elif w == 'hidden':
                 ents.append(['.%s.%d' % (DATE, k), 'D'])
+            elif w == 'zero':                       # a leading zero: skipped by the case pattern 0*
+                ents.append(['%s.0%d' % (DATE, rng.choice([7, 8, 9, 19])), rng.choice(['D', 'F'])])
+            elif w == 'junk':                       # a suffix that is not a number
+                ents.append(['%s.%s' % (DATE, rng.choice(['x', '1x', 'x1', '1-2', '1 2', '+3', '-4', '3e1'])), 'D'])
+            elif w == 'dots':                       # what follows the LAST dot counts
+                ents.append(['%s.%s' % (DATE, rng.choice(['1.%d' % (m + 3), '%d.x' % (m + 3), '2.07', 'a.b.%d' % (m + 2)])), 'D'])
+            elif w == 'big':
+                ents.append(['%s.%d' % (DATE, rng.choice([99, 100, 12345, 10 ** 12, 2 ** 62])), rng.choice(['D', 'D', 'F', 'L'])])
+            elif w == 'empty':
+                ents.append(['%s.' % DATE, 'D'])
         if rng.random() < 0.25:
             rootname = DATE + '-root'
         if rng.random() < 0.25:
@@ -236,11 +254,11 @@ def gen_hist(rng):
     keep = rng.choice([0, 1, 1, 2, 3])
     ops = []
     day = 0
-    for _ in range(rng.choice([3, 4, 5])):
+    for _ in range(rng.choice([5, 7, 9, 12, 13])):
         r = rng.random()
-        if r < 0.7:
+        if r < 0.78:
             ops.append(['run', day])
-        elif r < 0.9:
+        elif r < 0.93:
             ops.append(['clean', rng.choice([1, 2, 3])])
         else:
             day += 1
@@ -376,6 +394,12 @@ def run_case(ctx, impl, env, work, idx, c):
         shutil.rmtree(d, ignore_errors=True)
 
 
+def attic_dirs(root):
+    """directories below <root>/attic, relative"""
+    a = os.path.join(root, 'attic')
+    return sorted(os.path.relpath(os.path.join(dp, n), a) for dp, dn, fn in os.walk(a) for n in dn)
+
+
 def run_hist(ctx, impl, d, c):
     root = os.path.join(d, 'root')
     os.mkdir(root)
@@ -402,7 +426,7 @@ def run_hist(ctx, impl, d, c):
             used = os.path.basename(m.group(1)) if m else None
             after = sorted(n for n in os.listdir(root) if not n.startswith('.') and n != 'attic')
             trace.append({'op': 'run', 'date': date, 'before': before, 'used': used, 'rc': rc, 'after': after,
-                          'tail': out[-300:]})
+                          'tail': out[-300:], 'attic': attic_dirs(root)})
         else:
             env = env_with_shims(ctx, DATE)
             env.update({'EXECDIR': impl, 'TMPDIR': tmp})
@@ -413,7 +437,7 @@ def run_hist(ctx, impl, d, c):
             except subprocess.TimeoutExpired:
                 out, rc = 'timeout', -999
             after = sorted(n for n in os.listdir(root) if not n.startswith('.') and n != 'attic')
-            trace.append({'op': 'clean', 'before': before, 'rc': rc, 'after': after, 'tail': out[-300:]})
+            trace.append({'op': 'clean', 'before': before, 'rc': rc, 'after': after, 'tail': out[-300:], 'attic': attic_dirs(root)})
     return {'trace': trace}
 
 
@@ -422,7 +446,56 @@ def tree_toks(tree):
 
 
 def load_corpus():
-    return [json.load(open(p)) for p in sorted(glob.glob(os.path.join(common.VERIF, 'corpus', 'C17', '*.json')))]
+    files = sorted(glob.glob(os.path.join(common.VERIF, 'corpus', 'C17', '*.json')))
+    if not files:
+        raise common.BuildFailure('corpus/C17 is missing or empty: the replays of the known and fixed findings cannot run')
+    return [json.load(open(p)) for p in files]
+
+
+OUT_LOGINV = ('outside: the build directory holds a suffixed log STEM.log.k without k entries named STEM.log* - no sequence of '
+              'attempts leaves it that way (log_inv, the hypothesis of C17_log_id_fresh, does not hold)')
+
+
+def log_inv_holds(tree):
+    """NameSpec.log_inv on what find sees: every top-level entry named X.log.<k> has k below the number of lines
+    `find -name "X.log*"` prints (a path with a newline prints more than one line)"""
+    for p, k in tree:
+        if b'/' in p:
+            continue
+        m = re.fullmatch(rb'(.*\.log)\.(0|[1-9]\d*)', p, re.S)
+        if not m:
+            continue
+        stem = m.group(1)
+        lines = sum(1 + q.count(b'\n') for q, _ in tree if os.path.basename(q).startswith(stem))
+        if int(m.group(2)) >= lines:
+            return False
+    return True
+
+
+def logenv_outside(c):
+    """C17's second sentence quantifies over sequences of ATTEMPTS.  C17_log_env_fresh extends it to a build directory
+    that also changes otherwise, as long as no entry whose name contains ".log" disappears (robsd never deletes a
+    log; the one path that does is the C16 known finding clean-lock-spelled-differently, which strips the running
+    directory) and nothing else creates a top-level name STEM.log.k.  A case doing one of the two is outside the
+    property: this predicate, on the operations of the case alone, says which."""
+    have = {bytes.fromhex(p) for p, k in c['entries']}
+    made = 0
+    for op in c['ops']:
+        if op[0] == 'A':
+            made += 1
+            have.add(b'attempt-%d.log' % made)        # whatever its name is, it is a log
+        elif op[0] == 'P':
+            pth = bytes.fromhex(op[2])
+            if b'/' not in pth and re.search(rb'\.log\.\d+$', pth):
+                return OUT_LOGPUT
+            have.add(pth)
+        else:
+            pth = bytes.fromhex(op[1])
+            gone = {x for x in have if x == pth or x.startswith(pth + b'/')}
+            if any(b'.log' in os.path.basename(x) for x in gone) or b'.log' in os.path.basename(pth):
+                return OUT_LOGDEL
+            have -= gone
+    return None
 
 
 def has_gap(tree, date, name):
@@ -464,7 +537,7 @@ def evaluate(ctx, cases, res, impl=None):
             index.append((i, 'bid', len(qs)))
             qs.append(' '.join(['bid', dhex, hexs(o['start']), hexs(o['base'])] + tt))
             qs.append(' '.join(['bidok', dhex, hexs(o['out'])] + tt))
-            qs.append(' '.join(['bidfix', dhex, hexs(o['start']), hexs(o['base'])] + tt))
+            qs.append(' '.join(['bidmax', dhex, hexs(o['start']), hexs(o['base'])] + tt))
         elif c['kind'] == 'binit':
             index.append((i, 'binit', len(qs)))
             qs.append(' '.join(['binit', '1' if c['exists'] else '0', str(len(o['before']))] + [hexs(n) for n in o['before']]))
@@ -519,18 +592,17 @@ def evaluate(ctx, cases, res, impl=None):
             if m != impl_s or o['rc'] != 0:
                 res.disagreements.append({'case': c, 'model': m, 'impl': impl_s, 'rc': o['rc'],
                                           'stderr': o['err'][-200:].decode('latin1')})
-            if unhex(fx) != o['out'] and not collided:
-                res.tie_errors.append('build_id_fixed differs from build_id on a root where build_id is fresh: %s' % json.dumps(c)[:300])
             if unhex(fx) in [p for p, k in o['tree']]:
-                res.tie_errors.append('build_id_fixed names an existing entry: %s' % json.dumps(c)[:300])
-            if ok != '1' and c['stream'] == 'reach':
+                res.tie_errors.append('build_id_max names an existing entry: %s' % json.dumps(c)[:300])
+            if ok != '1':
+                # named after the date and carried by no entry of the root, whatever the root holds (C17_build_id_fresh
+                # is about every tree): judged on every stream
                 sig = SIG_D10 if (collided and has_gap(o['tree'], DATE, o['out'])) else (
                     'build-id-names-existing-entry' if collided else 'build-id-not-named-after-date')
                 res.oracle_failures.append({
                     'case': c, 'signature': sig,
-                    'what': 'build_id printed %s although the root already holds an entry of that name '
-                            '(an older same-day invocation was cleaned away while a newer one remains); '
-                            'build_init then continues inside it' % o['out'].decode('latin1')
+                    'what': 'build_id printed %s although the root already holds an entry of that name; build_init then '
+                            'continues inside it' % o['out'].decode('latin1')
                             if collided else 'build_id printed %r' % o['out'],
                     'impl': impl_s})
         elif kind == 'binit':
@@ -603,43 +675,44 @@ def evaluate(ctx, cases, res, impl=None):
             if m != impl_s or o['rc'] != 0:
                 res.disagreements.append({'case': c, 'model': m, 'impl': impl_s, 'rc': o['rc'],
                                           'stderr': o['err'][-200:].decode('latin1')})
-            tracked = common.match_known('C17', SIG_LOGDEL) is not None
-            if True:
-                have = {p_ for p_, k_ in o['tree'] if b'/' not in p_}
-                j = 0
-                bad = None
-                for op in c['ops']:
-                    if op[0] == 'A':
-                        if j >= len(names):
-                            bad = ('log-id-failed', 'attempt %d printed nothing' % (j + 1))
-                            break
-                        if names[j] in have:
+            outside = logenv_outside(c)
+            if outside:
+                res.count(outside)
+            have = {p_ for p_, k_ in o['tree'] if b'/' not in p_}
+            j = 0
+            bad = None
+            reused = False
+            for op in c['ops']:
+                if op[0] == 'A':
+                    if j >= len(names):
+                        bad = ('log-id-failed', 'attempt %d printed nothing' % (j + 1))
+                        break
+                    if names[j] in have:
+                        reused = True
+                        if not outside:
                             bad = ('log-id-reuses-existing-name', 'attempt %d of %s got the existing name %s'
                                    % (j + 1, op[1:], names[j].decode('latin1')))
                             break
-                        have.add(names[j])
-                        j += 1
-                    elif op[0] == 'P':
-                        pth = bytes.fromhex(op[2])
-                        if b'/' not in pth:
-                            have.add(pth)
-                    else:
-                        have.discard(bytes.fromhex(op[1]))
-                if bad is None:
-                    for j, nm in enumerate(names):
-                        if o['snap_after'].get(nm) != ('f', b'attempt %d\n' % (j + 1)):
-                            bad = ('log-overwritten', 'log of attempt %d (%s) does not hold its own output'
-                                   % (j + 1, nm.decode('latin1')))
-                            break
-                if bad and c['stream'] != 'guarded':
-                    # comparison-only stream (logs deleted, matches below tmp, suffixed names put there): the collision is
-                    # the documented boundary of C17_log_env_fresh (findings/C17_log_id_after_delete.md); it is reported
-                    # under its own signature once known_findings.json tracks it, and counted otherwise
-                    res.count('logenv-wild-' + bad[0])
-                    bad = (SIG_LOGDEL, bad[1]) if (tracked and bad[0] == 'log-id-reuses-existing-name'
-                                                and any(op[0] == 'X' for op in c['ops'])) else None
-                if bad:
-                    res.oracle_failures.append({'case': c, 'signature': bad[0], 'what': bad[1], 'impl': impl_s})
+                    have.add(names[j])
+                    j += 1
+                elif op[0] == 'P':
+                    pth = bytes.fromhex(op[2])
+                    if b'/' not in pth:
+                        have.add(pth)
+                else:
+                    have.discard(bytes.fromhex(op[1]))
+            if outside and reused:
+                res.count('outside case: an attempt was handed the name of an entry that is there')
+            if bad is None and not reused:
+                # every log holds the output of its own attempt (a reused name is truncated by tee: only without reuse)
+                deleted = {bytes.fromhex(op[1]) for op in c['ops'] if op[0] == 'X'}
+                for j, nm in enumerate(names):
+                    if nm not in deleted and o['snap_after'].get(nm) != ('f', b'attempt %d\n' % (j + 1)):
+                        bad = ('log-overwritten', 'log of attempt %d (%s) does not hold its own output'
+                               % (j + 1, nm.decode('latin1')))
+                        break
+            if bad:
+                res.oracle_failures.append({'case': c, 'signature': bad[0], 'what': bad[1], 'impl': impl_s})
         elif kind == 'log':
             m = ans[q]
             names = o['out'].split(b'\n')[:-1]
@@ -650,7 +723,9 @@ def evaluate(ctx, cases, res, impl=None):
             if m != impl_s or o['rc'] != 0:
                 res.disagreements.append({'case': c, 'model': m, 'impl': impl_s, 'rc': o['rc'],
                                           'stderr': o['err'][-200:].decode('latin1')})
-            if c['stream'] == 'reach':
+            if not log_inv_holds(o['tree']):
+                res.count(OUT_LOGINV)
+            else:
                 bad = None
                 for j, nm in enumerate(names):
                     if ans[q + 1 + j] != '1':
@@ -685,16 +760,41 @@ def evaluate(ctx, cases, res, impl=None):
             if m_s != impl_s or any(t['rc'] != 0 for t in o['trace']):
                 res.disagreements.append({'case': c, 'model': m_s, 'impl': impl_s,
                                           'trace': [{k: t[k] for k in ('op', 'rc', 'tail')} for t in o['trace']][:6]})
+            # reading (1): no run continues inside a directory that is there; reading (2): no run is handed a name
+            # that was handed out before, "whatever invocations ... have been cleaned away"
+            issued = {}
+            bad = None
             for t in runs:
-                if t['used'] is not None and t['used'] in t['before']:
-                    gap = has_gap([(n.encode(), 'D') for n in t['before']], t['date'], t['used'].encode())
+                u = t['used']
+                if u is None:
+                    continue
+                day_max = max([int(x.rsplit('.', 1)[1]) for x in issued if x.startswith(t['date'] + '.')] + [0])
+                if u in t['before']:
+                    gap = has_gap([(n.encode(), 'D') for n in t['before']], t['date'], u.encode())
                     res.count('hist-collision')
-                    res.oracle_failures.append({
-                        'case': c, 'signature': SIG_D10 if gap else 'build-id-names-existing-entry',
-                        'what': 'canvas on %s continued inside the existing invocation %s (root held %s)'
-                                % (t['date'], t['used'], ','.join(t['before'])),
-                        'impl': impl_s})
+                    bad = (SIG_D10 if gap else 'build-id-names-existing-entry',
+                           'canvas on %s continued inside the existing invocation %s (root held %s)'
+                           % (t['date'], u, ','.join(t['before'])))
                     break
+                if u in issued:
+                    res.count('hist-reissue')
+                    # the known class: the day had ten or more invocations, so the greatest NAME was not the latest
+                    # and cleaning archived the latest; anything else is defect D23's class
+                    sig = SIG_TEN if day_max >= 10 else SIG_D23
+                    bad = (sig, 'canvas on %s was handed %s, the name of an earlier invocation of the day that was cleaned '
+                                'away (names handed out so far: %s; root held %s)'
+                           % (t['date'], u, ' '.join(sorted(issued, key=lambda x: issued[x])), ','.join(t['before'])))
+                    break
+                issued[u] = len(issued)
+            if bad is None and c['attic']:
+                # every archived invocation has its own directory attic/YYYY/MM/DD.X, none sits inside another
+                for t in o['trace']:
+                    nested = [a for a in t['attic'] if re.search(r'\d{4}-\d{2}-\d{2}\.\d+', a)]
+                    if nested:
+                        bad = ('attic-holds-an-invocation-inside-another', 'attic directories %r' % nested[:3])
+                        break
+            if bad:
+                res.oracle_failures.append({'case': c, 'signature': bad[0], 'what': bad[1], 'impl': impl_s})
     return res
 
 
@@ -708,10 +808,11 @@ def run(ctx, n=None):
                 'build_id+build_init end to end on roots with file contents (whole tree compared), lock_acquire on 15 lock '
                 'states, log_id interleaved with entries appearing and disappearing (guarded stream: names without ".log"; '
                 'comparison-only stream: logs deleted, matches below tmp), '
-                'and run/clean histories through the real canvas and robsd-clean; non-trivial = a root with an invocation '
+                'and run/clean histories of 5-13 operations through the real canvas and robsd-clean (judged: no run inside '
+                'an existing directory, no name handed out twice, one attic directory per archived invocation); non-trivial = a root with an invocation '
                 'of the day / an existing directory with content / at least two attempts / at least two runs')
     n = n or ctx.budget(500, 6000)
-    nh = ctx.budget(6, 40)
+    nh = ctx.budget(6, 60)
     rng = ctx.rng
     cases = load_corpus()
     for _ in range(n):
@@ -721,7 +822,7 @@ def run(ctx, n=None):
     cases += [gen_hist(rng) for _ in range(nh)]
     res.samples = cases[:3]
     res.assumptions = ['directory states of up to ~60 entries, up to 14 invocations per day, up to 12 attempts, histories of up '
-                       'to 5 operations in the correspondence (the theorems have no bound)']
+                       'to 13 operations in the correspondence (the theorems have no bound)']
     impl = ctx.build_impl()
     chunk = 3000
     for i in range(0, len(cases), chunk):
